@@ -123,6 +123,38 @@ func (f *frame) staticCall(at ssa.Instruction, fn *ssa.Function, args []T, c *ss
 		return f.inline(at, fn, args, nil, st)
 	}
 	if ct != nil && ct.Fn != nil {
+		if ict, recvT := f.ifaceContractFor(fn); ict != nil && len(args) > 0 && args[0].Sort == "Int" && !ct.Trusted {
+			// the method has its own (refinement) contract AND implements a contracted interface method of its package:
+			// its preconditions are checked here, its effect is the interface contract's (the value-level clauses are the
+			// definition of the abstraction; the concrete contract proves the no-panic/structural part against the body)
+			env := &specEnv{f: f, vars: map[string]T{}, cur: st, old: st, pkg: ct.Pkg, lets: ct.Lets}
+			for i, n := range ct.ParamNames {
+				if i < len(args) {
+					t := args[i]
+					if t.Go == nil {
+						t.Go = ct.ParamTypes[i]
+					}
+					env.vars[n] = t
+					env.vars["v_"+n] = t
+				}
+			}
+			a, pos := f.anchor(at)
+			for _, r := range ct.Requires {
+				if t, err := env.evalBool(r); err == nil {
+					tags := r.Tags
+					if tags == nil {
+						tags = f.root.tags
+					}
+					if tags == nil && !f.root.nopanic {
+						e.assume(implies(st.cond, t))
+						continue
+					}
+					e.addOb("pre", ct.Rel+":"+r.Text+"|"+a, tags, pos, st.cond, t)
+				}
+			}
+			self := T{"(mk_iface " + fmt.Sprint(e.typeID(recvT)) + " " + args[0].S + ")", "Iface", ict.ParamTypes[0]}
+			return f.applyContract(at, ict, append([]T{self}, args[1:]...), st)
+		}
 		// value-receiver method called through nil pointer wrappers etc. are handled by SSA itself
 		return f.applyContract(at, ct, args, st)
 	}
